@@ -56,5 +56,17 @@ MUTANTS = {
   ('m14_subscript_typed_as_container', _TI,
    "    types = self.resolver.res_slice(\n        self.namespace, self.types_in.types, node, val_types, slice_types)",
    "    types = set(val_types)"),
+  # shapes added in round 2 (generator extension): local functions whose def does not dominate a call site (defined in a loop
+  # body / one branch, called at the start of the body / after the join behind a flag; redefinitions) ...
+  ('m15_fndefs_not_propagated_over_back_edges', 'malt/pyct/static_analysis/reaching_fndefs.py',
+   "    return prev_defs_out != defs_out",
+   "    return False"),
+  # ... and nonlocal declarations (at the top of the function or inside an if/while/for block) of a variable the function
+  # rebinds with another type: the declaration must reach the function scope, or the variable is treated as a plain local
+  # (a declaration directly in the function body still reaches it, as in the repo's tests; one made in a nested block is lost)
+  ('m16_nonlocal_declared_in_nested_block_not_propagated_to_function_scope', 'malt/pyct/static_analysis/activity.py',
+   "        self.parent.globals.update(self.globals)\n        self.parent.nonlocals.update(self.nonlocals)",
+   "        self.parent.globals.update(self.globals)\n        if self.parent.isolated or (self.parent.parent is not None and self.parent.parent.isolated):\n"
+   "          self.parent.nonlocals.update(self.nonlocals)"),
  ],
 }
